@@ -1257,6 +1257,10 @@ func main() {
 		manyCase(ps)
 		streamManyCase(ps)
 	}
+	// the largest tag lists also in the quick tier (the thorough grid has them with all chunkings)
+	if !thorough {
+		manyTagsQuick()
+	}
 	// packets whose payload Chunk has been read, rewound, sought, received or marshalled before
 	if thorough {
 		cursorCases(40, 10)
